@@ -16,16 +16,17 @@
 
   STATUS on the pinned tree
     Signal      all clauses proved.
-    MultiChan   exactly-once / FIFO / capacity proved; `no_lost_wake` is FALSE on the pinned
-                code (finding F-C11): `MultiChan.no_lost_wake_false` is the negation, with a
-                trace of the real implementation as witness; `MultiChan.no_lost_wake_partial`
-                proves it whenever the waiter list is homogeneous.
+    MultiChan   exactly-once / FIFO / capacity proved for both list disciplines.  `no_lost_wake`
+                is PROVED IN FULL for the code in /repo (two waiter lists, since fix commit
+                b18179b); for the earlier one-list code it is false — `no_lost_wake_false`
+                keeps the machine-checked witness (a trace of that implementation) and
+                `no_lost_wake_partial` what did hold (homogeneous waiter list).
     Chan        all clauses proved for the three kinds: exactly-once and per-sender FIFO,
                 capacity / no-overwrite for the bounded ring, single wake-up, and
                 `receiver_resumed_*` (publish-then-raise vs clear-then-recheck).
 -/
 import LibfiberVerif.Proof.Signal
-import LibfiberVerif.Proof.MultiChanRingStep
+import LibfiberVerif.Proof.MultiChanTwoStep
 import LibfiberVerif.Proof.ChanWakeStep
 import LibfiberVerif.Proof.ChanBWakeStep
 
@@ -113,14 +114,20 @@ end Signal
 
 /-! ################################################################################
     ## fiber_multi_channel_t  (include/fiber_multi_channel.h, harness/multichan.c)
+
+    `MultiChan.sys two cap`: `two = false` is the ONE-list discipline (blocked senders and
+    receivers on one list, wake its head — the code before /repo commit b18179b), `two = true`
+    the TWO-list discipline of /repo HEAD (a send wakes a blocked receiver, a receive a blocked
+    sender).  The harness reports the discipline of the build under test (struct layout) and
+    the trace is validated against that variant.
     ################################################################################ -/
 namespace MultiChan
 open LibfiberVerif LibfiberVerif.MultiChan
 
-/-- `exactly_once` (and total FIFO): what has been received is exactly the first `low`
-    messages in the order `high` was advanced — nothing lost, duplicated, invented or
-    re-ordered — and everything received was sent (non-NULL). -/
-theorem exactly_once (cap : Nat) (es : List Ev) (s : St) (h : (sys cap).run es = some s) :
+/-- `exactly_once` (and total FIFO), both disciplines: what has been received is exactly the
+    first `low` messages in the order `high` was advanced — nothing lost, duplicated, invented
+    or re-ordered — and everything received was sent (non-NULL). -/
+theorem exactly_once (two : Bool) (cap : Nat) (es : List Ev) (s : St) (h : (sys two cap).run es = some s) :
     s.recvd = (s.sent.map Prod.snd).take s.low ∧ s.recvd <+: s.sent.map Prod.snd ∧
     s.sent.length = s.high ∧ s.low ≤ s.high ∧ (∀ p, p ∈ s.sent → p.2 ≠ 0) := by
   have hr := rinv_of_run h
@@ -130,25 +137,24 @@ theorem exactly_once (cap : Nat) (es : List Ev) (s : St) (h : (sys cap).run es =
 /-- `fifo` — messages of one sender arrive in the order sent: the messages of fiber f appear
     in the (totally ordered, see `exactly_once`) delivery sequence in the order of f's calls
     to send; only f's call in progress may be missing. -/
-theorem fifo (cap : Nat) (es : List Ev) (s : St) (f : Nat) (h : (sys cap).run es = some s) :
+theorem fifo (two : Bool) (cap : Nat) (es : List Ev) (s : St) (f : Nat) (h : (sys two cap).run es = some s) :
     sentBy s f <+: s.calls f ∧ sentBy s f ++ (s.pc f).pending = s.calls f := by
   have := (rinv_of_run h).calls_eq f
   exact ⟨⟨_, this⟩, this⟩
 
 /-- `bounded` — never more than `size` messages are buffered … -/
-theorem bounded (cap : Nat) (es : List Ev) (s : St) (h : (sys cap).run es = some s) :
+theorem bounded (two : Bool) (cap : Nat) (es : List Ev) (s : St) (h : (sys two cap).run es = some s) :
     s.low ≤ s.high ∧ s.high - s.low ≤ s.cap :=
   (rinv_of_run h).lowhigh
 
 /-- … and no unreceived message is overwritten: when a sender writes its message, the slot
-    holds NULL and the ring is not full; conversely every buffered message sits in its slot
-    until the receiver that takes it clears it. -/
-theorem bounded_no_overwrite (cap : Nat) (es : List Ev) (s s' : St) (f i x : Nat)
-    (h : (sys cap).run es = some s) (v hh l : Nat) (hpc : s.pc f = .gotLow (.send v) hh l)
+    holds NULL and the ring is not full; the other buffered messages stay where they are. -/
+theorem bounded_no_overwrite (two : Bool) (cap : Nat) (es : List Ev) (s s' : St) (f i x : Nat)
+    (h : (sys two cap).run es = some s) (v hh l : Nat) (hpc : s.pc f = .gotLow (.send v) hh l)
     (hs : step s (.wBuf f i x) = some s') :
     s.buf i = 0 ∧ s.high - s.low < s.cap ∧
     (∀ j, s.low ≤ j → j < s.high → s'.buf (j % s.cap) = s.buf (j % s.cap)) := by
-  have hi := inv_of_run h
+  have hi := linv_of_run h
   have hr := rinv_of_run h
   simp only [step, hpc] at hs
   split at hs <;> simp at hs
@@ -163,20 +169,36 @@ theorem bounded_no_overwrite (cap : Nat) (es : List Ev) (s s' : St) (f i x : Nat
   simp [upd, this]
 
 /-- the buffered messages are where they belong -/
-theorem buffered (cap : Nat) (es : List Ev) (s : St) (i : Nat) (h : (sys cap).run es = some s)
+theorem buffered (two : Bool) (cap : Nat) (es : List Ev) (s : St) (i : Nat)
+    (h : (sys two cap).run es = some s)
     (h1 : s.low ≤ i) (h2 : i < s.high) (h3 : ∀ f m, s.pc f ≠ .rCleared i m) :
     s.buf (i % s.cap) = val s i :=
   (rinv_of_run h).slots i h1 h2 h3
 
+/-- mutual exclusion of the channel's critical section (from the abstract lock) -/
+theorem critical_section_exclusive (two : Bool) (cap : Nat) (es : List Ev) (s : St) (f g : Nat)
+    (h : (sys two cap).run es = some s) (hf : (s.pc f).inCS = true) (hg : (s.pc g).inCS = true) : f = g :=
+  cs_unique (linv_of_run h) hf hg
+
 /-- `no_lost_wake`, the full statement: in a state where nobody is active (every fiber is
     outside any operation or asleep and un-woken, the lock is free) no sleeper could proceed,
     i.e. every sleeping sender faces a full ring and every sleeping receiver an empty one. -/
-def NoLostWake (cap : Nat) : Prop :=
-  ∀ es s, (sys cap).run es = some s → quiescent s = true → ∀ f, stranded s f = false
+def NoLostWake (two : Bool) (cap : Nat) : Prop :=
+  ∀ es s, (sys two cap).run es = some s → quiescent s = true → ∀ f, stranded s f = false
 
-/-- Witness against `NoLostWake`: the trace of the REAL implementation for
-    `multichan 1 1 's1,s2|s3|s4,s5,s6|r,r|r|r,r,r'` (1 kernel thread, capacity 2; replay
-    replays/C11/F-C11.json, status HANG), projected to model events (189 of them). -/
+/-- **`no_lost_wake` holds for the code in /repo** (two-list discipline, every capacity, any
+    number of senders, receivers and kernel threads): a sender blocked on a full channel /
+    a receiver blocked on an empty one is always resumed by a later receive / send.  Proof:
+    while the receivers' list is non-empty, #buffered messages ≤ #receivers that are awake and
+    have not taken their message (+1 while a sender still owes its wake-up), because every
+    message put then wakes exactly one receiver; symmetrically for free slots and senders; in
+    a quiescent state both bounds are 0 (Proof/MultiChanTwo*.lean). -/
+theorem no_lost_wake (cap : Nat) : NoLostWake true cap :=
+  fun _ s h hq f => not_stranded_two (inv2_of_run h) hq f
+
+/-- Witness against `NoLostWake false 2` (the OLD code): the trace of the real implementation
+    before commit b18179b for `multichan 1 1 's1,s2|s3|s4,s5,s6|r,r|r|r,r,r'` (1 kernel thread,
+    capacity 2; it hung), projected to model events (189 of them). -/
 def lostWakeTrace : List Ev :=
     [.callRecv 21, .fsub 21 1, .rHigh 21 0, .rLow 21 0, .rWaiters 21 0, .wScratch 21 21 0,
    .wWaiters 21 21, .wStateWaiting 21, .fadd 20 0, .callRecv 20, .fsub 20 1, .rHigh 20 0,
@@ -213,15 +235,16 @@ def lostWakeTrace : List Ev :=
    .wStateWaiting 16, .fadd 0 0]
 
 set_option maxRecDepth 100000 in
-/-- `no_lost_wake` is FALSE for the pinned code (finding F-C11): the trace above is accepted
-    by the model and ends with nobody active, two of two slots used, waiter list
-    [sender 16, receiver 21] — receiver 21 is asleep although messages are buffered, because
-    the wake-up it needed went to a sender at the head of the mixed list. -/
-theorem no_lost_wake_false : ¬ NoLostWake 2 := by
+/-- `no_lost_wake` is FALSE for the one-list discipline (finding F-C11, fixed in /repo by
+    b18179b): the trace above is accepted by the model and ends with nobody active, two of two
+    slots used, waiter list [sender 16, receiver 21] — receiver 21 is asleep although
+    messages are buffered, because the wake-up it needed went to a sender at the head of the
+    mixed list. -/
+theorem no_lost_wake_false : ¬ NoLostWake false 2 := by
   intro hN
-  have key : ((sys 2).run lostWakeTrace).map (fun s => (quiescent s, stranded s 21)) = some (true, true) := by
+  have key : ((sys false 2).run lostWakeTrace).map (fun s => (quiescent s, stranded s 21)) = some (true, true) := by
     decide
-  cases hr : (sys 2).run lostWakeTrace with
+  cases hr : (sys false 2).run lostWakeTrace with
   | none => rw [hr] at key; simp at key
   | some s =>
     rw [hr] at key
@@ -230,28 +253,75 @@ theorem no_lost_wake_false : ¬ NoLostWake 2 := by
     rw [key.2] at this; simp at this
 
 set_option maxRecDepth 100000 in
-example : ((sys 2).run lostWakeTrace).map (fun s => (s.high, s.low, s.wl, s.everS && s.everR))
+example : ((sys false 2).run lostWakeTrace).map (fun s => (s.high, s.low, s.wl, s.everS && s.everR))
     = some (5, 3, [16, 21], true) := by decide
 
-/-- `no_lost_wake_partial`: the statement holds in every reachable state in which the waiter
-    list has been homogeneous so far — only senders, or only receivers, have ever blocked
-    (`everS`, `everR` are set when a sender / a receiver enters internal_wait).  What is
-    missing for the full statement is exactly the case of F-C11: a blocked sender and a
-    blocked receiver in the one list. -/
+/-- `no_lost_wake_partial` (one-list discipline): the statement holds in every reachable state
+    in which the waiter list has been homogeneous so far — only senders, or only receivers,
+    have ever blocked.  What is missing for the full statement is exactly the case of F-C11. -/
 theorem no_lost_wake_partial (cap : Nat) (es : List Ev) (s : St) (f : Nat)
-    (h : (sys cap).run es = some s) (hq : quiescent s = true)
+    (h : (sys false cap).run es = some s) (hq : quiescent s = true)
     (hh : (s.everS && s.everR) = false) : stranded s f = false :=
   not_stranded_of_homogeneous (inv_of_run h) hq hh f
 
-/-- mutual exclusion of the channel's critical section (from the abstract lock) -/
-theorem critical_section_exclusive (cap : Nat) (es : List Ev) (s : St) (f g : Nat)
-    (h : (sys cap).run es = some s) (hf : (s.pc f).inCS = true) (hg : (s.pc g).inCS = true) : f = g :=
-  cs_unique (inv_of_run h) hf hg
+/-! non-vacuity of `no_lost_wake`: the SAME script on /repo HEAD (two lists) — the real run,
+    projected to model events — is accepted by the two-list model, blocks senders and receivers
+    alike, and ends quiescent with everything delivered in order. -/
+def fixedTrace : List Ev :=
+    [.callRecv 21, .fsub 21 1, .rHigh 21 0, .rLow 21 0, .rWaiters 21 0, .wScratch 21 21 0,
+   .wWaiters 21 21, .wStateWaiting 21, .fadd 20 0, .callRecv 20, .fsub 20 1, .rHigh 20 0,
+   .rLow 20 0, .rWaiters 20 21, .wScratch 20 20 21, .wWaiters 20 20, .wStateWaiting 20,
+   .fadd 19 0, .callRecv 19, .fsub 19 1, .rHigh 19 0, .rLow 19 0, .rWaiters 19 20,
+   .wScratch 19 19 20, .wWaiters 19 19, .wStateWaiting 19, .fadd 18 0, .callSend 18 4,
+   .fsub 18 1, .rHigh 18 0, .rLow 18 0, .wBuf 18 0 4, .wHigh 18 1, .rWaiters 18 19,
+   .rScratch 18 19 20, .wWaiters 18 20, .wScratch 18 19 0, .wStateReady 18 19, .fadd 18 0,
+   .retSend 18, .callSend 18 5, .fsub 18 1, .rHigh 18 1, .rLow 18 0, .wBuf 18 1 5, .wHigh 18 2,
+   .rWaiters 18 20, .rScratch 18 20 21, .wWaiters 18 21, .wScratch 18 20 0, .wStateReady 18 20,
+   .fadd 18 0, .retSend 18, .callSend 18 6, .fsub 18 1, .rHigh 18 2, .rLow 18 0, .rSWaiters 18 0,
+   .wScratch 18 18 0, .wSWaiters 18 18, .wStateWaiting 18, .fadd 17 0, .callSend 17 3,
+   .fsub 17 1, .rHigh 17 2, .rLow 17 0, .rSWaiters 17 18, .wScratch 17 17 18, .wSWaiters 17 17,
+   .wStateWaiting 17, .fadd 16 0, .callSend 16 1, .fsub 16 1, .rHigh 16 2, .rLow 16 0,
+   .rSWaiters 16 17, .wScratch 16 16 17, .wSWaiters 16 16, .wStateWaiting 16, .fadd 20 0,
+   .fsub 20 1, .rHigh 20 2, .rLow 20 0, .rBuf 20 0 4, .wBuf 20 0 0, .wLow 20 1, .rSWaiters 20 16,
+   .rScratch 20 16 17, .wSWaiters 20 17, .wScratch 20 16 0, .wStateReady 20 16, .fadd 20 0,
+   .retRecv 20 4, .fsub 19 1, .rHigh 19 2, .rLow 19 1, .rBuf 19 1 5, .wBuf 19 1 0, .wLow 19 2,
+   .rSWaiters 19 17, .rScratch 19 17 18, .wSWaiters 19 18, .wScratch 19 17 0, .wStateReady 19 17,
+   .fadd 19 0, .retRecv 19 5, .callRecv 19, .fsub 19 1, .rHigh 19 2, .rLow 19 2, .rWaiters 19 21,
+   .wScratch 19 19 21, .wWaiters 19 19, .wStateWaiting 19, .fadd 0 0, .fsub 17 1, .rHigh 17 2,
+   .rLow 17 2, .wBuf 17 0 3, .wHigh 17 3, .rWaiters 17 19, .rScratch 17 19 21, .wWaiters 17 21,
+   .wScratch 17 19 0, .wStateReady 17 19, .fadd 17 0, .retSend 17, .fsub 16 1, .rHigh 16 3,
+   .rLow 16 2, .wBuf 16 1 1, .wHigh 16 4, .rWaiters 16 21, .rScratch 16 21 0, .wWaiters 16 0,
+   .wScratch 16 21 0, .wStateReady 16 21, .fadd 16 0, .retSend 16, .callSend 16 2, .fsub 16 1,
+   .rHigh 16 4, .rLow 16 2, .rSWaiters 16 18, .wScratch 16 16 18, .wSWaiters 16 16,
+   .wStateWaiting 16, .fadd 21 0, .fsub 21 1, .rHigh 21 4, .rLow 21 2, .rBuf 21 0 3,
+   .wBuf 21 0 0, .wLow 21 3, .rSWaiters 21 16, .rScratch 21 16 18, .wSWaiters 21 18,
+   .wScratch 21 16 0, .wStateReady 21 16, .fadd 21 0, .retRecv 21 3, .callRecv 21, .fsub 21 1,
+   .rHigh 21 4, .rLow 21 3, .rBuf 21 1 1, .wBuf 21 1 0, .wLow 21 4, .rSWaiters 21 18,
+   .rScratch 21 18 0, .wSWaiters 21 0, .wScratch 21 18 0, .wStateReady 21 18, .fadd 21 0,
+   .retRecv 21 1, .callRecv 21, .fsub 21 1, .rHigh 21 4, .rLow 21 4, .rWaiters 21 0,
+   .wScratch 21 21 0, .wWaiters 21 21, .wStateWaiting 21, .fadd 19 0, .fsub 19 1, .rHigh 19 4,
+   .rLow 19 4, .rWaiters 19 21, .wScratch 19 19 21, .wWaiters 19 19, .wStateWaiting 19,
+   .fadd 0 0, .fsub 18 1, .rHigh 18 4, .rLow 18 4, .wBuf 18 0 6, .wHigh 18 5, .rWaiters 18 19,
+   .rScratch 18 19 21, .wWaiters 18 21, .wScratch 18 19 0, .wStateReady 18 19, .fadd 18 0,
+   .retSend 18, .fsub 16 1, .rHigh 16 5, .rLow 16 4, .wBuf 16 1 2, .wHigh 16 6, .rWaiters 16 21,
+   .rScratch 16 21 0, .wWaiters 16 0, .wScratch 16 21 0, .wStateReady 16 21, .fadd 16 0,
+   .retSend 16, .fsub 21 1, .rHigh 21 6, .rLow 21 4, .rBuf 21 0 6, .wBuf 21 0 0, .wLow 21 5,
+   .rSWaiters 21 0, .fadd 21 0, .retRecv 21 6, .fsub 19 1, .rHigh 19 6, .rLow 19 5, .rBuf 19 1 2,
+   .wBuf 19 1 0, .wLow 19 6, .rSWaiters 19 0, .fadd 19 0, .retRecv 19 2]
 
-/-! non-vacuity of `no_lost_wake_partial`: a run of the real implementation (script `s1|r`,
-    1 kernel thread) in which a receiver blocks on the empty channel, the sender's
-    internal_wake makes it READY, and it receives the message; the final state is quiescent
-    and only a receiver ever blocked. -/
+set_option maxRecDepth 100000 in
+example : ((sys true 2).run fixedTrace).map (fun s => (quiescent s, s.everS && s.everR, s.high, s.low, s.recvd))
+    = some (true, true, 6, 6, [4, 5, 3, 1, 6, 2]) := by decide
+
+set_option maxRecDepth 100000 in
+/-- the one-list model rejects that trace (the fixed code reads `send_waiters`), and the two-list
+    model rejects the old code's trace: the two disciplines are told apart by validation -/
+example : ((sys false 2).run fixedTrace).isNone = true ∧ ((sys true 2).run lostWakeTrace).isNone = true := by
+  decide
+
+/-! non-vacuity of `no_lost_wake_partial`: a run of the old code (script `s1|r`, 1 kernel thread)
+    in which a receiver blocks on the empty channel, the sender's internal_wake makes it READY,
+    and it receives the message; the final state is quiescent and only a receiver ever blocked. -/
 def blockedReceiverTrace : List Ev :=
   [.callRecv 17, .fsub 17 1, .rHigh 17 0, .rLow 17 0, .rWaiters 17 0, .wScratch 17 17 0,
    .wWaiters 17 17, .wStateWaiting 17, .fadd 16 0, .callSend 16 1, .fsub 16 1, .rHigh 16 0,
@@ -259,15 +329,15 @@ def blockedReceiverTrace : List Ev :=
    .wScratch 16 17 0, .wStateReady 16 17, .fadd 16 0, .retSend 16, .fsub 17 1, .rHigh 17 1,
    .rLow 17 0, .rBuf 17 0 1, .wBuf 17 0 0, .wLow 17 1, .rWaiters 17 0, .fadd 17 0, .retRecv 17 1]
 
-example : ((sys 2).run blockedReceiverTrace).map (fun s => (quiescent s, s.everS, s.everR))
+example : ((sys false 2).run blockedReceiverTrace).map (fun s => (quiescent s, s.everS, s.everR))
     = some (true, false, true) := by decide
 
-example : ((sys 2).run blockedReceiverTrace).map (fun s => (s.recvd, s.sent.map Prod.snd))
+example : ((sys false 2).run blockedReceiverTrace).map (fun s => (s.recvd, s.sent.map Prod.snd))
     = some ([1], [1]) := by decide
 
 /-- … and half-way through (after 9 events) the receiver is asleep, the state is quiescent and
-    the ring is empty: exactly the situation the theorem allows -/
-example : ((sys 2).run (blockedReceiverTrace.take 9)).map
+    the ring is empty: exactly the situation the theorems allow -/
+example : ((sys false 2).run (blockedReceiverTrace.take 9)).map
       (fun s => (quiescent s, sleeping s 17, stranded s 17, s.wl))
     = some (true, true, false, [17]) := by decide
 
